@@ -3,7 +3,7 @@
     by props/C26).  Not claimed: what the converted circuit itself does (tket), pytket's ordering of
     registers and symbols.  Parameter names are abstracted to integers (only their order matters). *)
 From Coq Require Import List ZArith Bool Arith.
-From V.C26 Require Import Model Proofs.
+From V.C26 Require Import Model Proofs History GenState ProofsHistory.
 Import ListNotations.
 
 (* Symbolic parameters are bound in lexicographic name order: whatever order the converted circuit
@@ -67,3 +67,37 @@ Example stub_rejected_instance :
   accepts false (mkCirc [2] [1] []) (mkSig [(GQubit, true)] GBool) = false /\
   accepts false (mkCirc [2] [1] []) (mkSig [(GQubit, true); (GQubit, true)] GBool) = true.
 Proof. split; reflexivity. Qed.
+
+(* ---------------------------------------------------------------- histories over circuit objects *)
+(* T: definition/pytket_circuits.py keeps nothing between compiles (no module-level container, memoising
+   decorator, global, mutable class attribute/default) and converts the definition's live circuit. *)
+Theorem loader_has_no_module_state : gen_module_state = [] /\ gen_cached = false /\ gen_conversion_direct = true.
+Proof. exact no_state. Qed.
+Print Assumptions loader_has_no_module_state.
+
+(* Whatever happened before (other loads, compiles, in-place changes, copies): compiling a definition yields
+   exactly the signature, wiring and converted body of the contents its circuit object has AT THAT COMPILE,
+   and leaves the loader unchanged. *)
+Theorem compile_reflects_current_contents : forall st n o arrays cur,
+  dget (l_defs st) n = Some (o, arrays) -> hget (l_heap st) o = Some cur ->
+  step gen_cached st (HCompile n) =
+    (st, Some (mkResult (sig_of arrays (k_circ cur)) (call_args arrays (k_circ cur)) (outputs arrays (k_circ cur)) cur)).
+Proof. intros st n o arrays cur D H. rewrite <- result_of_same. exact (compile_current st n o arrays cur D H). Qed.
+Print Assumptions compile_reflects_current_contents.
+
+(* hence two arbitrary histories that leave the object with equal contents give equal functions *)
+Theorem compile_depends_only_on_contents : forall ops1 ops2 n1 n2 o1 o2 arrays cur,
+  let s1 := final gen_cached init ops1 in let s2 := final gen_cached init ops2 in
+  dget (l_defs s1) n1 = Some (o1, arrays) -> hget (l_heap s1) o1 = Some cur ->
+  dget (l_defs s2) n2 = Some (o2, arrays) -> hget (l_heap s2) o2 = Some cur ->
+  snd (step gen_cached s1 (HCompile n1)) = snd (step gen_cached s2 (HCompile n2)).
+Proof.
+  intros. rewrite (compile_current s1 n1 o1 arrays cur), (compile_current s2 n2 o2 arrays cur); auto.
+Qed.
+Print Assumptions compile_depends_only_on_contents.
+
+(* non-vacuity + the statement is not true of a memoising loader: load, compile, extend in place, load again *)
+Example memoising_loader_goes_stale :
+  nth 5 (run true init stale_history) None = Some (result_of false c2 c1) /\
+  nth 5 (run false init stale_history) None = Some (result_of false c2 c2) /\ c1 <> c2.
+Proof. exact cached_stale. Qed.
